@@ -143,6 +143,27 @@ def run_case(ck, desc):
         if np.any(after != rf1[-1]):
             ck.violation("interpolator-final-after-last-time", {"values": after, "final": rf1[-1]}, desc)
 
+    # interpolator after a run whose recovery is NOT monotone (frac-face pressure rising late)
+    if desc["cls"] == "single" and strictly and nt >= 5:
+        from vf import tables as _tb
+
+        lo_p = _tb.pressure_range(_tb.from_desc(desc["table"]))[0]
+        sched = sim.make_schedule({"kind": "random-walk", "seed": int(abs(c)) % 100000}, nt, max(lo_p, desc["p_f"]), desc["p_i"], lo_p)
+        sched[3 * nt // 4 :] = desc["p_f"] + 0.9 * (desc["p_i"] - desc["p_f"])  # build-up at the end
+        _, ev4, rf4, _, ip4, _ = _run(desc, t.copy(), sched)
+        if ev4 is not None:
+            ck.count("interpolators_checked_nonmonotone_recovery")
+            scale4 = max(float(np.max(np.abs(rf4))), 1e-300)
+            at4 = np.asarray(ip4(t), dtype=float)
+            if float(np.max(np.abs(at4 - rf4))) / scale4 > 1e-12:
+                ck.violation("interpolator-at-nodes", {"schedule": "build-up", "max_rel": float(np.max(np.abs(at4 - rf4))) / scale4}, desc)
+            aft = np.asarray(ip4([t[-1] + 1e-6 * (1 + abs(t[-1])), t[-1] + 100.0]), dtype=float)
+            bef = np.asarray(ip4([t[0] - 1.0]), dtype=float)
+            if np.any(aft != rf4[-1]):
+                ck.violation("interpolator-final-after-last-time", {"schedule": "build-up", "values": aft, "final": rf4[-1], "max_recovery": float(np.max(rf4))}, desc)
+            if np.any(bef != 0):
+                ck.violation("interpolator-zero-before-first-time", {"schedule": "build-up", "values": bef}, desc)
+
     # constant schedule == scalar setting (bit-identical)
     if desc["cls"] == "single":
         res3, ev3, rf3, rfd3, _, _ = _run(desc, t.copy(), np.full(nt, desc["p_f"]))
